@@ -108,8 +108,12 @@ func (w *world) invalidClass(pkg *corev1alpha1.Package) string {
 		if w.env.OpenShift == nil {
 			return "constraint:platform"
 		}
-	case "k8s-new":
+	case "k8s-new", "os-then-k8s-new":
 		return "constraint:platformVersion"
+	case "k8s-ok-then-os-new":
+		if w.env.OpenShift != nil {
+			return "constraint:platformVersion"
+		}
 	case "unique":
 		n := 0
 		for _, k := range driver.Keys(w.e.W.Store, "Package") {
@@ -304,8 +308,8 @@ func (w *world) newImage(name string, variant int) string {
 		s.Defect = pkggen.LoadDefects[r.Intn(len(pkggen.LoadDefects))]
 	case 2, 3:
 		s.Defect = pkggen.ValidationDefects[r.Intn(len(pkggen.ValidationDefects))]
-	case 4:
-		s.Constraint = []string{"openshift", "k8s-new", "unique", "k8s-ok"}[r.Intn(4)]
+	case 4, 6:
+		s.Constraint = []string{"openshift", "k8s-new", "unique", "k8s-ok", "os-then-k8s-new", "os-then-k8s-ok", "k8s-ok-then-os-new"}[r.Intn(7)]
 	case 5:
 		s.Components = map[string]*pkggen.Spec{"frontend": pkggen.Valid(r, "frontend", variant)}
 		if r.Intn(3) == 0 {
@@ -437,7 +441,7 @@ func run(c *vh.Ctx, i int) {
 		}
 		var good []string
 		for _, ref := range refs {
-			if im, ok := w.reg.images[ref]; ok && !im.PullErr && im.Spec.Defect == "" && (im.Spec.Constraint == "" || im.Spec.Constraint == "k8s-ok") {
+			if im, ok := w.reg.images[ref]; ok && !im.PullErr && im.Spec.Defect == "" && (im.Spec.Constraint == "" || im.Spec.Constraint == "k8s-ok" || im.Spec.Constraint == "os-then-k8s-ok") {
 				good = append(good, ref)
 			}
 		}
